@@ -91,7 +91,7 @@ def gen_sampler(rnd, is_group, big):
     if r < 0.15:
         return {"callable": "identity"}
     if r < 0.35:
-        return {"callable": "counting"}
+        return {"callable": "counting", "mixed": rnd.random() < 0.4}
     method = rnd.choice(["replacement", "single_pass", "dynamic"] + ([] if is_group else ["proportion"]))
     strat = rnd.choice([None, None, "by_label"] + (["by_group"] if is_group else []))
     inner = {"sampling_method": method, "stratified_sampling": strat}
@@ -136,12 +136,13 @@ def generate(rnd, tier):
         obj["swaps"] = 0
         # every group gets both classes so that by_group/single_pass are inside the quantifier
         labs = c12.all_labels(obj)
+        intlike = obj.get("dtype", "float64") != "float64"
         for k, g in enumerate(labs):
             if g not in obj["pos_groups"]:
-                obj["pos"].append(float(10 + k))
+                obj["pos"].append(10 + k if intlike else float(10 + k))
                 obj["pos_groups"].append(g)
             if g not in obj["neg_groups"]:
-                obj["neg"].append(float(-10 - k))
+                obj["neg"].append((20 + k if obj["dtype"].startswith("u") else -10 - k) if intlike else float(-10 - k))
                 obj["neg_groups"].append(g)
         obj.pop("perm", None)
         obj.pop("group_names", None)
@@ -251,6 +252,7 @@ class RecSampler:
         self.inputs, self.outputs = [], []
         self.raise_at = {f["call"] for f in faults or [] if f["kind"] == "sampler_raise"}
         self.fired = []
+        self.mixed = bool(spec.get("__mixed_identity")) if isinstance(spec, dict) else False
 
     def __call__(self, source, **kw):
         k = len(self.inputs)
@@ -263,6 +265,8 @@ class RecSampler:
             out = source
         elif self.kind == "recording":
             out = source.bootstrap_sample(self.inner)
+        elif self.mixed and k % 3 == 1:
+            out = source  # a legal sampler may hand back the source itself for some replicates
         else:  # counting: the j-th call returns a distinct, legal, deterministic resample
             out = counting_sample(source, k)
         self.outputs.append(out)
@@ -364,7 +368,7 @@ def execute(scn, ctx):
         def make(target):
             """Fresh callbacks + the call to perform, bound to `target` (the shared source or a twin)."""
             inner_cfg = M.build_config(dict(sspec.get("inner", {}), nb_samples=1)) if s_kind == "recording" else None
-            sampler = RecSampler(s_kind, inner_cfg, spec, fl) if s_kind != "builtin" else None
+            sampler = RecSampler(s_kind, inner_cfg, dict(spec, __mixed_identity=bool(sspec.get("mixed"))), fl) if s_kind != "builtin" else None
             config = M.build_config(dict(sspec if s_kind == "builtin" else {}, **cfg), sampler=sampler) if s_kind == "builtin" else \
                 M.build_config(dict(cfg, sampling_method={"callable": s_kind}), sampler=sampler)
             metric = mname if named else RecMetric(base_metric(mname, L), fl, target, ctx)
@@ -438,6 +442,35 @@ def execute(scn, ctx):
                     est_all = vals[:1]
                     est = vals[0] if vals else None
                     reps = vals[1:nb + 1] if len(vals) > nb and not metric.fired else None
+                elif s_kind == "counting" and outs is not None and any(o_ is src for o_ in outs):
+                    # a custom sampler that hands back the source itself for some replicates: rows are matched to the
+                    # recorded evaluations by object identity (any recorded value of that object is accepted)
+                    by_id = {}
+                    for (smp, _, v) in calls:
+                        by_id.setdefault(id(smp), []).append(v)
+                    on_src = by_id.get(id(src), [])
+                    est = on_src[0] if on_src else None
+                    est_all = on_src
+                    stray = [smp for (smp, _, _) in calls if smp is not src and not any(smp is o_ for o_ in outs)]
+                    if stray:
+                        bad("rows_from_sampler", "metric was evaluated on an object the sampler did not produce")
+                    if len(outs) != nb:
+                        bad("one_row_per_sample", f"sampler produced {len(outs)} samples for nb_samples={nb}")
+                        reps = None
+                    elif any(id(o_) not in by_id for o_ in outs):
+                        bad("rows_from_sampler", f"sample {[j for j, o_ in enumerate(outs) if id(o_) not in by_id][0]} produced by the sampler was never evaluated")
+                        reps = None
+                    else:
+                        reps = [by_id[id(o_)][-1] if o_ is not src else by_id[id(o_)][0] for o_ in outs]
+                        if not any(isinstance(v, BaseException) for v in reps) and kind == "bootstrap_metric":
+                            arr_ = np.asarray(res["value"])
+                            for j, o_ in enumerate(outs):
+                                if arr_.ndim >= 1 and arr_.shape[0] == nb and not any(rows_equal(arr_[j], c_, arr_.dtype) for c_ in by_id[id(o_)] if not isinstance(c_, BaseException)):
+                                    bad("row_is_metric_of_sample", f"row {j} = {np.asarray(arr_[j]).tolist()} is not the metric of the {j}-th sample the sampler produced "
+                                                                   f"({'the source object itself' if o_ is src else 'a resample'}): {np.asarray(by_id[id(o_)][0]).tolist()}")
+                                    break
+                        if metric.fired:
+                            reps = None  # several evaluations of the source with a misbehaving callback: which one is which is not observable
                 else:
                     on_src = [v for (smp, _, v) in calls if smp is src]
                     non_src = [(smp, v) for (smp, _, v) in calls if smp is not src]
